@@ -729,7 +729,7 @@ pub fn check(a: CheckArgs) -> i32 {
                 space => {
                     let walked = (tot.runs / 4).min(space);
                     J::obj()
-                        .with("what", J::s("small configurations (kind x handshake x windowsize 1,2,3,4,8 x 10 lengths x 3 tail sizes) x every position x variant, walked by run number on both builds; see scen.rs xfer_stratum"))
+                        .with("what", J::s(if a.prop == "C03" { "every file name made of a prefix (8: none, /, \\, //, ../, ..\\, absolute outside, absolute sibling) and one to three segments of a path-segment alphabet (12 segments, 4 separators; 6 segments and 2 separators at length three), each as RRQ and as WRQ, four names per run, walked by run number on both builds; the server configuration around them is drawn per run; see scen_srv.rs enumerated_name" } else { "small configurations (kind x handshake x windowsize 1,2,3,4,8 x 10 lengths x 3 tail sizes) x every position x variant, walked by run number on both builds; see scen.rs xfer_stratum" }))
                         .with("space", J::i(space as i64))
                         .with("indices_walked_per_build", J::i(walked as i64))
                         .with("complete", J::Bool(walked >= space))
